@@ -213,14 +213,18 @@ fn transition(opts: &Opts, m: &mut AcModel, now: i64, f: &Frame, before: Option<
                             }
                         }
                         3 | 4 => {
-                            expect_in("ground speed", &a.grspeed, &[None, b.grspeed], "airspeed subtype carries no ground speed")?;
-                            expect_in("track", &a.track, &[None, b.track], "airspeed subtype carries no ground track")?;
+                            expect_in("ground speed", &a.grspeed, &[b.grspeed], "TC19 airspeed subtypes carry no ground speed: unchanged")?;
+                            expect_in("track", &a.track, &[b.track], "TC19 airspeed subtypes carry no ground track: unchanged")?;
                             match r.vrate {
                                 Some(v) => expect_in("vertical rate", &a.vrate, &[Some(v)], "TC19 vertical rate")?,
                                 None => expect_in("vertical rate", &a.vrate, &[None, b.vrate], "vertical-rate field 0 = no information")?,
                             }
                         }
-                        _ => st.excluded.push("TC19 reserved subtype"),
+                        _ => {
+                            st.excluded.push("TC19 reserved subtype (vertical rate unconstrained)");
+                            expect_in("ground speed", &a.grspeed, &[b.grspeed], "reserved TC19 subtype carries no ground speed: unchanged")?;
+                            expect_in("track", &a.track, &[b.track], "reserved TC19 subtype carries no ground track: unchanged")?;
+                        }
                     }
                 }
                 20..=22 => {
